@@ -34,6 +34,7 @@ type c17Model struct {
 	badKinds  map[string]bool
 	prefixOK  map[string]bool // lines that may or may not appear when the run ends by a fatal interrupt
 	endless   bool
+	failMsgByCore bool // the failing worker's message names its id (= core number - 2)
 	handshake bool // cores wait for each other's writes to globals: must complete within a step bound under fair scheduling
 }
 
@@ -119,10 +120,12 @@ func c17Workload(spec RunSpec) c17Model {
 		b.WriteString("let g = 0;\n")
 		b.WriteString(worker)
 		fail := "let z = 0;\n            println(1 / z);"
+		m.failMsgByCore = false
 		m.badKinds["fatal:ValueError"] = true
 		if kind == 1 {
-			fail = "throw(\"boom\");"
+			fail = "throw(\"boom\" + id.to_string());"
 			m.badKinds = map[string]bool{"fatal:UncaughtThrow": true}
+			m.failMsgByCore = true
 		}
 		fmt.Fprintf(&b, `fn bad(id: int, at: int) {
     for i in 0..100 {
@@ -145,6 +148,7 @@ fn sleeper(id: int) {
 		for i := 0; i < n; i++ {
 			switch {
 			case i < nbad:
+				m.badCores[uint(2+i)] = true
 				fmt.Fprintf(&b, "    spawn bad(%d, %d);\n", i, at+i)
 				for k := 0; k < at+i; k++ {
 					m.prefixOK[fmt.Sprintf("b %d %d", i, k)] = true
@@ -345,6 +349,15 @@ func runC17(t *testing.T, spec RunSpec) *Verdict {
 			v.fail(P, "wrong-result", "wait-result", "fatal:"+got.Kind, fmt.Sprintf("Wait returned %s (%s); expected the failing core's fatal interrupt %v", got.Kind, firstLine(got.Msg), keys(m.badKinds)))
 			return v
 		}
+		// ... with that core's number: workers are spawned by main in order, so worker i is core 2+i
+		if !m.badCores[got.CoreNum] {
+			v.fail(P, "wrong-result", "wait-result-core", "fatal:core", fmt.Sprintf("Wait reported the interrupt for core %d, but only cores %v fail", got.CoreNum, coreList(m.badCores)))
+			return v
+		}
+		if m.failMsgByCore && !strings.Contains(firstLine(got.Msg), fmt.Sprintf("boom%d", int(got.CoreNum)-2)) {
+			v.fail(P, "wrong-result", "wait-result-core", "fatal:message", fmt.Sprintf("Wait reported core %d with the message %q of another core", got.CoreNum, firstLine(got.Msg)))
+			return v
+		}
 		for _, l := range final {
 			if !m.prefixOK[l] {
 				v.fail(P, "wrong-result", "output-multiset", "fatal", fmt.Sprintf("unexpected line %q", l))
@@ -449,4 +462,13 @@ func planC17(t *testing.T, tier string, seed uint64) ([]RunSpec, error) {
 		plan = append(plan, RunSpec{Property: "C17", Workload: "c17/free-race", Params: map[string]int{"free": 1, "n": 1 + k%8, "iters": []int{5, 30, 120}[k%3], "gomaxprocs": []int{2, 4, 16}[(k/3)%3]}, Seed: runSeed(seed, 900000+k)})
 	}
 	return plan, nil
+}
+
+func coreList(m map[uint]bool) []int {
+	var out []int
+	for k := range m {
+		out = append(out, int(k))
+	}
+	sort.Ints(out)
+	return out
 }
